@@ -16,6 +16,14 @@ CHECKS = {
             'another tree, detached node, MISSING) is executed up to the stated history depth; after every transition '
             'the parent/path/lookup/root/alias/detached invariant is evaluated on all nodes of all roots.',
             BASE_NOTE),
+    'C03': ('E1-statespace', 'model_checking',
+            'explicit-state BFS over write histories on typed containers built for every spec of the grammar; schema invariant (independent acceptor + own-spec fixpoint) on every state',
+            'For every spec of the value-spec grammar a typed pg.Dict, pg.List (three size bounds) and pg.Object is '
+            'driven through every write path with a boundary-complete value pool under the allow_partial scopes; after '
+            'every step, successful or failed, the stored content is checked by an independent acceptor and by the '
+            'container\'s own spec, rejected writes must raise Type/Value/KeyError and leave the target unchanged, and a '
+            'history must replay identically (no state leak through shared schemas).',
+            BASE_NOTE),
     'C04': ('E2-enum', 'model_checking',
             'bounded-exhaustive enumeration of the value-spec grammar (depth 2), all ordered pairs, laws decided by the real apply() over a boundary-complete value pool',
             'L1 idempotent apply / spec unchanged and L2 default fixpoint for every spec x pool value; L3 (is_compatible => '
